@@ -30,6 +30,8 @@ pub enum Op {
     DeleteNow,
     Run,
     RunAsync { ms: u64 },
+    /// marker closure after which the job task is stalled ("slow node") for `ms`
+    RunStall { ms: u64 },
     SetHook { async_ms: Option<u64> },
     UnsetHook,
     SetErr { async_ms: Option<u64> },
@@ -52,6 +54,7 @@ impl Op {
             Op::DeleteNow => "delete_now",
             Op::Run => "run",
             Op::RunAsync { .. } => "run_async",
+            Op::RunStall { .. } => "run",
             Op::SetHook { .. } => "set_spawn_hook",
             Op::UnsetHook => "unset_spawn_hook",
             Op::SetErr { .. } => "set_error_handler",
@@ -67,7 +70,7 @@ impl Op {
         }
     }
     pub fn is_marker(&self) -> bool {
-        matches!(self, Op::Run | Op::RunAsync { .. })
+        matches!(self, Op::Run | Op::RunAsync { .. } | Op::RunStall { .. })
     }
     pub fn spawn_capable(&self) -> bool {
         matches!(self, Op::Start | Op::Restart | Op::TryRestart | Op::RestartSig { .. } | Op::TryRestartSig { .. })
@@ -184,6 +187,14 @@ pub fn issue(job: &Job, op: &Op, id: u32, jobno: u8) -> Ticket {
             let (cur, prev) = probe(ctx);
             log(Ev::MarkerStart { op: id, cur, prev });
         }),
+        Op::RunStall { ms } => {
+            let ms = *ms;
+            job.run(move |ctx| {
+                let (cur, prev) = probe(ctx);
+                log(Ev::MarkerStart { op: id, cur, prev });
+                crate::ctx::stall_current_task(ms);
+            })
+        }
         Op::RunAsync { ms } => {
             let ms = *ms;
             job.run_async(move |ctx| {
@@ -397,11 +408,17 @@ pub fn random_op(rng: &mut Rng, sigs: &mut SigAlloc, weights: &OpWeights) -> Op 
         4 => Op::StopSig { sig: sigs.fresh(), grace },
         5 => Op::RestartSig { sig: sigs.fresh(), grace },
         6 => Op::TryRestartSig { sig: sigs.fresh(), grace },
-        7 => Op::Signal { sig: sigs.fresh() },
+        7 => Op::Signal { sig: if rng.chance(1, 5) { 9 } else { sigs.fresh() } },
         8 => Op::ToWait,
         9 => Op::Delete,
         10 => Op::DeleteNow,
-        11 => Op::Run,
+        11 => {
+            if weights.1 && rng.chance(1, 6) {
+                Op::RunStall { ms: *rng.pick(&[1u64, 5, 50, 100]) }
+            } else {
+                Op::Run
+            }
+        }
         12 => Op::RunAsync { ms: *rng.pick(&DURS[..6]) },
         13 => Op::SetHook { async_ms: if rng.chance(1, 2) { None } else { Some(*rng.pick(&DURS[..5])) } },
         14 => Op::UnsetHook,
@@ -411,7 +428,7 @@ pub fn random_op(rng: &mut Rng, sigs: &mut SigAlloc, weights: &OpWeights) -> Op 
 }
 
 /// weights for the 17 op kinds (swarm: some set to 0 per run)
-pub struct OpWeights(pub [u64; 17]);
+pub struct OpWeights(pub [u64; 17], pub bool);
 
 impl OpWeights {
     pub fn swarm(rng: &mut Rng) -> Self {
@@ -425,11 +442,13 @@ impl OpWeights {
         if w.iter().sum::<u64>() == 0 {
             w = base;
         }
-        OpWeights(w)
+        OpWeights(w, false)
     }
 }
 
 pub struct GenCfg {
+    /// slow-node fault: some markers stall the job task
+    pub stalls: bool,
     pub faults: bool,
     pub max_ops: u64,
     pub max_senders: u64,
@@ -438,7 +457,8 @@ pub struct GenCfg {
 
 pub fn gen_random(rng: &mut Rng, cfg: &GenCfg) -> E1Scn {
     let mut sigs = SigAlloc::new();
-    let weights = OpWeights::swarm(rng);
+    let mut weights = OpWeights::swarm(rng);
+    weights.1 = cfg.stalls && rng.chance(1, 3);
     let n_senders = rng.range(1, cfg.max_senders);
     let n_ops = rng.range(1, cfg.max_ops);
     let style = rng.below(4); // 0 burst, 1 settled, 2 mixed small gaps, 3 mixed
